@@ -65,6 +65,7 @@ fn main() {
         "loadone" => loadscen::loadone(&opts),
         "loadscen" => loadscen::run(&opts),
         "gen-c04" => gen_totality::run(&opts),
+        "c03-suggest" => gen_units::c03_suggest(&opts),
         "c11-one" => c11_expr::one(&opts),
         "c05-one" => c05_digits::one(&opts),
         "c07-one" => gen_names::one(&opts),
